@@ -1243,6 +1243,7 @@ def fail_events(model: TopoModel):
             ev.append(('fail', 'link-same-interface-twice', model._pref(free[0])))
             # a port does not become a service port (nor cease to be one) by having its type rewritten
             ev.append(('fail', 'type-to-service-port', model._pref(free[0])))
+            ev.append(('fail', 'type-to-sub-interface', model._pref(free[0])))
             if exp:
                 for how in ('number', 'generator-that-fails'):
                     ev.append(('fail', 'service-interfaces-not-a-list', how, model._pref(free[0])))
@@ -1546,6 +1547,11 @@ def _do_fail(model: TopoModel, ev):
         t.add_link(name='ltwice', node_id=nid('ltwice'), ltype=LinkType.Patch, interfaces=[i, i])
     elif kind == 'type-to-service-port':
         model.port(*ev[2]).set_property('type', InterfaceType.ServicePort)
+    elif kind == 'type-to-sub-interface':
+        p_ = model.port(*ev[2])
+        if p_.type == InterfaceType.SubInterface:
+            raise _Skip()
+        p_.set_property('type', InterfaceType.SubInterface)
     elif kind == 'type-from-service-port':
         sp = [i for i in model.service(ev[2]).interface_list if i.name == ev[3]][0]
         sp.set_properties(type=InterfaceType.TrunkPort)
@@ -1649,7 +1655,7 @@ GUARD_PROBES = {'node-duplicate-name', 'node-duplicate-id', 'facility-duplicate-
                 'service-duplicate-id', 'service-duplicate-name', 'component-duplicate-name', 'component-duplicate-id',
                 'storage-duplicate-name', 'sub-duplicate-name', 'sub-duplicate-vlan', 'peer-twice', 'link-duplicate-name',
                 'facility-duplicate-interface-names', 'type-outside-vocabulary', 'type-of-another-kind', 'link-non-interface', 'link-same-interface-twice',
-                'link-over-service-port', 'service-interfaces-not-a-list', 'type-to-service-port', 'type-from-service-port',
+                'link-over-service-port', 'service-interfaces-not-a-list', 'type-to-service-port', 'type-from-service-port', 'type-to-sub-interface',
                 'sub-duplicate-via-second-handle', 'sub-service-interface-twice-one-handle'}
 
 
